@@ -195,6 +195,18 @@ def oracle_schedule(case) -> Result:
     eff = float(reg(model)) / ex
     if not _close(eff, s32):
         res.bad('default-call-does-not-use-final-strength', eff=eff, final=s32)
+    # the effective strength is a function of the schedule position (epoch, n_epochs) only: the
+    # same object asked about two interleaved schedules answers each with its own ramp
+    for ne2 in sorted({3 * ne + 1, max(1, ne // 3), ne + 1}):
+        for epoch in range(0, min(ne, ne2) + 1):
+            for n_ep in (ne, ne2):
+                eff = float(reg(model, epoch, n_ep)) / ex
+                want = s32 * min(1.0, 0.01 + 0.99 * epoch / (n_ep / 2))
+                if not _close(eff, want, 1e-4):
+                    res.bad('effective-strength-depends-on-earlier-calls', epoch=epoch,
+                            n_epochs=n_ep, other_schedule=(ne2 if n_ep == ne else ne), eff=eff,
+                            schedule_value=want)
+                    return res
     res.nontrivial = ne >= 2
     res.obs = {'n_epochs': ne}
     return res
